@@ -470,12 +470,11 @@ class Credits(Mode):
 
         if max_credit_units and total_credit_units > max_credit_units:
             self.info_log("Max credits reached.")
-            self._update_credit_strings()
             self.machine.events.post('max_credits_reached')
             '''event: max_credits_reached
             desc: Credits have just been added to the machine, but the
             configured maximum number of credits has been reached.'''
-            self.machine.variables.set_machine_var('credit_units', max_credit_units)
+            total_credit_units = max_credit_units
 
         if max_credit_units <= 0 or max_credit_units > previous_credit_units:
             self.info_log("Credit units added")
